@@ -1,7 +1,7 @@
 (** Property C03 -- the content reported equals the document's infoset; all APIs / scanners agree.
     Theorems about the normalisation rules (Model03.v) and the corollary of C02's accept theorem. *)
 From Coq Require Import ZArith ZifyBool ZifyN ZifyNat Lia.
-From XV Require Import Base.XDefs C02.Model02 C02.Spec02 C02.Proofs02a C02.Proofs02e C02.Properties_C02 C03.Model03.
+From XV Require Import Base.XDefs C02.Model02 C02.Spec02 C02.Proofs02a C02.Proofs02e C02.Properties_C02 C03.Model03 C03.Proofs03a.
 Local Open Scope N_scope.
 
 (** end-of-line handling: the reader's normalisation is the function of XML 1.0 section 2.11, for every input *)
@@ -153,4 +153,87 @@ Example T03_nonvacuous_eol : eol_norm [97; 13; 10; 98; 13; 99; 10; 13; 13; 10] =
 Proof. vm_compute. reflexivity. Qed.
 Example T03_nonvacuous_guard : no_escaped_blank [(false, 32); (false, 9); (true, 32); (true, 65); (false, 66)] = true /\
   attnorm_tok false false [(false, 32); (false, 9); (true, 32); (true, 65); (false, 32); (false, 66); (false, 10)] = [65; 32; 66].
+Proof. vm_compute. split; reflexivity. Qed.
+
+(** XML 1.1 end-of-line handling (handleEOL with fNEL on): the reader's normalisation is the function of XML 1.1
+    section 2.11 for every input; none of #xD, #x85, #x2028 survives; idempotent *)
+Theorem T03_eol11 : forall s, eol_norm11 s = eol11_spec s.
+Proof. exact eol11_eq. Qed.
+Print Assumptions T03_eol11.
+Theorem T03_eol11_clean : forall s c, is_eol11_single c = true -> ~ In c (eol_norm11 s).
+Proof. exact (fun s c => clean11_not_in (eol_norm11 s) c (eol11_clean s)). Qed.
+Print Assumptions T03_eol11_clean.
+Theorem T03_eol11_idempotent : forall s, eol_norm11 (eol_norm11 s) = eol_norm11 s.
+Proof. exact (fun s => eol11_id_clean (eol_norm11 s) (eol11_clean s)). Qed.
+Print Assumptions T03_eol11_idempotent.
+(** a text without NEL / LSEP is normalised identically by both versions *)
+Theorem T03_eol11_conservative : forall s, no_nel s = true -> eol_norm s = eol_norm11 s.
+Proof. exact eol_10_is_11. Qed.
+Print Assumptions T03_eol11_conservative.
+(** interaction with the XML declaration: the declaration is read in XML 1.0 mode and the rest in XML 1.1 mode;
+    for a declaration without NEL / LSEP (XML 1.1 section 2.11 forbids them there) that does not end in #xD the
+    result is the XML 1.1 normalisation of the whole entity *)
+Theorem T03_eol11_decl : forall decl rest, no_nel decl = true -> last decl 0 <> 13 ->
+  eol_doc11 decl rest = eol_norm11 (decl ++ rest).
+Proof. exact eol_doc11_eq. Qed.
+Print Assumptions T03_eol11_decl.
+Example T03_nonvacuous_eol11 :
+  eol_norm11 [97; 13; 0x85; 98; 0x85; 99; 0x2028; 13; 13; 10; 13] = [97; 10; 98; 10; 99; 10; 10; 10; 10] /\
+  no_nel [60; 63; 120; 109; 108; 32; 10; 63; 62] = true /\
+  eol_doc11 [60; 63; 120; 109; 108; 13; 10; 63; 62] [13; 0x85; 0x85] = [60; 63; 120; 109; 108; 10; 63; 62; 10; 10].
+Proof. vm_compute. repeat split; reflexivity. Qed.
+
+(** line and column (Locator) in both versions: over every split of the text consumed that does not separate #xD
+    from the #xA (#x85 in XML 1.1) belonging to it, the line is additive; the column advances by the number of
+    UTF-16 units of a continuation without line ends (TAB = 1, supplementary character = 2) and otherwise depends on
+    the continuation alone; right after any line-end form the column is 1 and the line one more *)
+Theorem T03_line_additive_v : forall v a b, split_ok v a b ->
+  line_after v (a ++ b) = line_after v a + count_lf (norm_of v b).
+Proof. exact line_additive. Qed.
+Print Assumptions T03_line_additive_v.
+Theorem T03_col_additive : forall v a b, split_ok v a b ->
+  col_after v (a ++ b) = if count_lf (norm_of v b) =? 0 then col_after v a + N.of_nat (length (norm_of v b))
+                         else col_after v b.
+Proof. exact col_additive. Qed.
+Print Assumptions T03_col_additive.
+Theorem T03_col_units : forall v a b, plain v b = true -> col_after v (a ++ b) = col_after v a + N.of_nat (length b).
+Proof. exact col_plain. Qed.
+Print Assumptions T03_col_units.
+Theorem T03_col_after_break : forall v a e, In e (breaks v) -> last a 0 <> 13 ->
+  col_after v (a ++ e) = 1 /\ line_after v (a ++ e) = line_after v a + 1.
+Proof. exact after_break. Qed.
+Print Assumptions T03_col_after_break.
+Example T03_nonvacuous_col :
+  plain true [9; 0xD801; 0xDC00; 120] = true /\ col_after true ([97; 0x2028; 98] ++ [9; 0xD801; 0xDC00; 120]) = 6 /\
+  col_after false [97; 13; 10; 9; 98] = 3 /\ line_after true [97; 13; 0x85; 0x85; 98] = 3.
+Proof. vm_compute. repeat split; reflexivity. Qed.
+Example T03_nonvacuous_split : split_ok true [97; 13] [98] /\ In [13; 0x85] (breaks true).
+Proof. split; [right; split; [discriminate|intros _; discriminate]|cbn; tauto]. Qed.
+
+(** DTD defaulting and the [specified] property: every attribute written in the tag is delivered, in document order,
+    with specified = true; an attribute delivered with specified = false is a declared default whose name is not
+    written in the tag; the flag does not depend on anything else (in particular not on the history of the pooled
+    XMLAttr objects: the model sets it on every use - the correspondence runs element sequences and consecutive parses
+    on one parser object against it) *)
+Theorem T03_specified_literal : forall lit defs a, In a lit -> In (a, true) (att_list lit defs).
+Proof. exact att_list_literal. Qed.
+Print Assumptions T03_specified_literal.
+Theorem T03_specified_flag : forall lit defs a f, In (a, f) (att_list lit defs) ->
+  if f then In a lit else In a defs /\ has_name (fst a) lit = false.
+Proof. exact att_list_flag. Qed.
+Print Assumptions T03_specified_flag.
+Theorem T03_specified_order : forall lit defs, map fst (firstn (length lit) (att_list lit defs)) = lit.
+Proof. exact att_list_order. Qed.
+Print Assumptions T03_specified_order.
+(** Locator / error position inside nested entities: while any number of INTERNAL entities are open on top of an
+    external entity, the position reported is the one reached in that external entity (just past the reference),
+    whatever lies below it on the reader stack *)
+Theorem T03_locator_nearest_external : forall v ints c below, forallb (fun e => negb (fst e)) ints = true ->
+  locator v (ints ++ (true, c) :: below) = (line_after v c, col_after v c).
+Proof. exact (fun v ints c below H => f_equal (fun s => (line_after v s, col_after v s)) (last_ext_internal ints c below H)). Qed.
+Print Assumptions T03_locator_nearest_external.
+Example T03_nonvacuous_specified :
+  att_list [([100], [108]); ([120], [49])] [([100], [118]); ([102], [119])] =
+    [(([100], [108]), true); (([120], [49]), true); (([102], [119]), false)] /\
+  locator false [(false, [65; 10; 10]); (false, [66]); (true, [108; 10; 38; 105; 59]); (true, [10; 10; 10; 10])] = (2, 4).
 Proof. vm_compute. split; reflexivity. Qed.
